@@ -233,3 +233,12 @@ func mustParse(w *mc.Worker, text string) (numscript.ParseResult, bool) {
 type parsedT = numscript.ParseResult
 
 func numscriptParse(text string) parsedT { return numscript.Parse(text) }
+
+// pow2Dom: numbers around the 63- and 64-bit boundaries (exact powers of two included, so that
+// code which looks at the low machine word only is exposed), ordered simplest-first.
+func pow2Dom() []*big.Int {
+	p63 := new(big.Int).Lsh(big.NewInt(1), 63)
+	p64 := new(big.Int).Lsh(big.NewInt(1), 64)
+	p65 := new(big.Int).Lsh(big.NewInt(1), 65)
+	return []*big.Int{big.NewInt(0), big.NewInt(1), new(big.Int).Sub(p63, big.NewInt(1)), p63, new(big.Int).Sub(p64, big.NewInt(1)), p64, new(big.Int).Add(p64, big.NewInt(1)), p65}
+}
